@@ -150,7 +150,13 @@ func VerifC14_ManyRelations() {
 		td.Metadata.Relations[name] = &openfgav1.RelationMetadata{Module: groups[g].module, SourceInfo: verifSrc(groups[g].module, groups[g].file)}
 		want[g] = append(want[g], name)
 	}
-	text, err := TransformJSONProtoToDSL(&openfgav1.AuthorizationModel{SchemaVersion: "1.2", TypeDefinitions: []*openfgav1.TypeDefinition{td}})
+	tds := []*openfgav1.TypeDefinition{td}
+	if zzverif.Choose("type-without-own-module", 2) == 1 {
+		// the type itself is unattributed (its relations come from modules); another type makes the model modular
+		td.Metadata.Module, td.Metadata.SourceInfo = "", nil
+		tds = append(tds, &openfgav1.TypeDefinition{Type: "zz", Metadata: &openfgav1.Metadata{Module: "core", SourceInfo: verifSrc("core", "core.fga")}})
+	}
+	text, err := TransformJSONProtoToDSL(&openfgav1.AuthorizationModel{SchemaVersion: "1.2", TypeDefinitions: tds})
 	zzverif.Assert(err == nil, "modular-model-prints")
 	expected := "model\n  schema 1.2\n\ntype doc\n  relations"
 	for g := range want {
@@ -160,6 +166,9 @@ func VerifC14_ManyRelations() {
 		}
 	}
 	expected += "\n"
+	if len(tds) == 2 {
+		expected += "\ntype zz\n"
+	}
 	zzverif.Assert(text == expected, "relations-in-documented-order")
 	zzverif.Reach("printed")
 }
